@@ -1,6 +1,6 @@
 //! C09 — error correction never reports success on a word that is not a codeword.
 use crate::ctx::{guard, Case, Ctx};
-use crate::gen::rswords::{add_vanishing, add_virtual_error, add_with_roots, apply, pattern, random_root_set, valid_codeword};
+use crate::gen::rswords::{add_vanishing, add_virtual_error, add_with_roots, apply, pattern, pattern_with_syndromes, random_root_set, set_all_syndromes, structured_syndromes, valid_codeword};
 use crate::json::{hex, J};
 use crate::refimpl::cat::{self, Row, CAT};
 use crate::refimpl::gf::{first_bad_block, Rs};
@@ -54,7 +54,31 @@ pub fn eval(ctx: &mut Ctx, r: &Row, rs: &Rs, word: &[u8], tag: &str) {
 
 pub fn gen_word(ctx: &mut Ctx, r: &Row, rs: &Rs, kind: usize) -> (Vec<u8>, &'static str) {
     let (t, k) = (r.k() / 2, r.k());
-    match kind % 8 {
+    match kind % 10 {
+        8 => {
+            let mut cw = valid_codeword(&mut ctx.rng, r, rs, 3);
+            let b = ctx.rng.below(r.blocks);
+            let target = structured_syndromes(&mut ctx.rng, k);
+            set_all_syndromes(r, &mut cw, b, &target);
+            // optionally a few ordinary errors on top
+            if ctx.rng.chance(1, 2) {
+                let w: Vec<usize> = (0..r.blocks).map(|x| if x == b { ctx.rng.range(1, t) } else { 0 }).collect();
+                let pat = pattern(&mut ctx.rng, r, &w);
+                cw = apply(&cw, &pat);
+            }
+            (cw, "structured_syndromes_all_k")
+        }
+        9 => {
+            // weight-(t+1) pattern whose first t+1 syndromes are structured
+            let cw = valid_codeword(&mut ctx.rng, r, rs, 3);
+            let b = ctx.rng.below(r.blocks);
+            let w = (t + 1 + ctx.rng.below(2)).min(r.block_positions(b).len() - 1);
+            let target = structured_syndromes(&mut ctx.rng, w);
+            match pattern_with_syndromes(&mut ctx.rng, r, b, w, &target) {
+                Some(e) => (apply(&cw, &e), "structured_syndromes_weight_gt_t"),
+                None => (ctx.rng.bytes(r.total()), "noise"),
+            }
+        }
         7 => {
             // error location at or beyond the end of the block (virtual position), alone or with real errors
             let mut cw = valid_codeword(&mut ctx.rng, r, rs, 3);
